@@ -425,6 +425,25 @@ def r_traversals(ck: Checker) -> None:
     ck.guard("R-CTRLDEP", lambda: check_ctrldep(ck, bfs, m), bfs)
 
 
+def r_no_early_tables(ck: Checker, rule: str = "R-TYPES-CACHE") -> None:
+    """__init_subclass__ runs before the @dataclass decorator has processed the new class: dataclasses.fields(cls) are still those of the
+    base.  Asking for the class's field tables there (get_cls_child_fields / get_cls_props / get_cls_all_fields / _populate_type_dicts /
+    process_node_fields with cls) fills the per-class tables with the base's fields for good (positive pattern)."""
+    f = ck.repo.func(NODE, "ASTNode.__init_subclass__")
+    bad = None
+    for fn in [x for x in (f.raw, f.node) if x is not None]:
+        for c in ast.walk(fn):
+            if isinstance(c, ast.Call) and (dotted(c.func) or "").split(".")[-1] in ("get_cls_child_fields", "get_cls_props", "get_cls_all_fields", "_populate_type_dicts", "process_node_fields", "get_field_types", "fields") \
+                    and c.args and norm(c.args[0]) == "cls":
+                bad = c
+    what = "ASTNode.__init_subclass__ does not ask for the field tables of the class being created (the dataclass decorator has not run yet)"
+    if bad is not None:
+        ck.violation(rule, f, bad, what, positive=True,
+                     construct=f"__init_subclass__: {norm(bad)[:50]} runs before @dataclass has processed the class — the tables are filled with the base class's fields and stay that way")
+    else:
+        ck.holds(rule, f, f.node, what)
+
+
 def run(ck: Checker) -> None:
     ck.explanation = (
         "dfs/bfs are recognised as worklist algorithms; discipline (take side vs put side), sibling order (reverse()/reversed under "
@@ -455,6 +474,8 @@ def run(ck: Checker) -> None:
     from . import state_rules as S5
     ck.guard("R-GATHER", lambda: S5.r_iter_once(ck, "R-GATHER", ("pyoak.node",)))
     ck.guard("R-WORKLIST", lambda: S5.r_mutable_default(ck, "R-WORKLIST", ("pyoak.node",)))
+    ck.guard("R-WORKLIST", lambda: S5.r_late_binding(ck, "R-WORKLIST", ("pyoak.node",)))
+    ck.guard("R-TYPES-CACHE", lambda: r_no_early_tables(ck))
     from . import state_rules as S_
     ck.guard("R-WORKLIST", lambda: S_.r_unstable_key(ck, "R-WORKLIST", [(NODE, "ASTNode.dfs"), (NODE, "ASTNode.bfs"), (NODE, "ASTNode.gather")], "a traversal enumerates the tree as it is now"))
     ck.require_count("R-WORKLIST", 3 + 3 + 6 + 2)
